@@ -445,6 +445,24 @@ CONFIGS = {
 }
 
 _QUERIES = {}
+_OPSYMS = {}
+
+
+def opsym(label, qop):
+    """(wire, Info) of datagram symbol `label` for a query whose opcode is qop: the reply
+    symbols that answer the query's opcode (i.e. all but the wrong-opcode ones) carry it."""
+    if not qop:
+        return SYMBOLS[label][0], INFOS[label]
+    key = (label, qop)
+    if key not in _OPSYMS:
+        w = SYMBOLS[label][0]
+        if label not in ("wrong-opcode", "opcode-update") and len(w) >= 4:
+            flags = int.from_bytes(w[2:4], "big")
+            if (flags >> 11) & 0xF == 0:
+                flags = (flags & ~0x7800) | (qop << 11)
+                w = w[:2] + flags.to_bytes(2, "big") + w[4:]
+        _OPSYMS[key] = (w, nm.Info(w))
+    return _OPSYMS[key]
 
 
 def the_query(which="std"):
@@ -453,6 +471,10 @@ def the_query(which="std"):
     if which not in _QUERIES:
         if which == "std":
             q = dns.message.make_query("www.Example.com.", "A", id=QID)
+        elif isinstance(which, int):
+            # same question, another opcode (NOTIFY = 4, IQUERY = 1, ...)
+            q = dns.message.make_query("www.Example.com.", "A", id=QID)
+            q.set_opcode(which)
         else:
             q = dns.message.make_query(".", "A", id=QID)
         w = q.to_wire()
@@ -575,8 +597,9 @@ def run_udp(case):
     labels = seq + (["genuine"] if case["final"] == "genuine" else [])
     iu, ie, rot, it, orr = opts = tuple(bool(x) for x in case["opts"])
     delays, timeout = timing(case["timing"], len(seq))
-    events = [(SYMBOLS[l][0], srcs[SYMBOLS[l][1]], delays[i]) for i, l in enumerate(labels)]
-    q, qwire, qinfo = the_query()
+    qop = case.get("qop", 0)
+    events = [(opsym(l, qop)[0], srcs[SYMBOLS[l][1]], delays[i]) for i, l in enumerate(labels)]
+    q, qwire, qinfo = the_query(qop if qop else "std")
     send_blocks = case.get("send_blocks", 0)
     is_async = entry.startswith("async")
     kind = "udp" if entry_fn(entry).endswith(".udp") else "receive"
@@ -629,7 +652,7 @@ def run_udp(case):
     except BaseException as e:
         obs = classify(e)
         exc = e
-    dgrams = [(INFOS[l], srcs[SYMBOLS[l][1]]) for l in labels]
+    dgrams = [(opsym(l, qop)[1], srcs[SYMBOLS[l][1]]) for l in labels]
     past = sock.max_asked >= len(seq)
     # the send half of an exchange
     if kind == "udp":
@@ -708,8 +731,10 @@ def run_udp(case):
 
 def udp_task(task, col):
     """DFS over datagram sequences for one (entry, cfg, options, timing scheme)."""
-    entry, cfg, opts, scheme, depth, send_blocks = task
+    entry, cfg, opts, scheme, depth, send_blocks = task[:6]
     base = {"mode": "udp", "entry": entry, "cfg": cfg, "opts": list(opts), "timing": scheme}
+    if len(task) > 6 and task[6]:
+        base["qop"] = task[6]
     if send_blocks:
         base["send_blocks"] = send_blocks
     nsym = len(ALPHABET)
@@ -721,7 +746,7 @@ def udp_task(task, col):
             probs, p, out = run_udp(case)
             col.count("evaluations")
             col.count("udp_cases")
-            col.nontrivial(("udp", entry, cfg, opts, scheme, send_blocks, tuple(seq), final))
+            col.nontrivial(("udp", entry, cfg, opts, scheme, send_blocks, base.get("qop", 0), tuple(seq), final))
             col.outcome("udp:" + out)
             if probs:
                 for s, w in probs:
@@ -1142,6 +1167,12 @@ def run(ctx):
                 for sb in (1, 2):
                     for scheme in ("fast", "dl@0", "dl@1", "dl@2"):
                         tasks.append((udp_task, (entry, "v4", opts, scheme, 1, sb)))
+    # queries with another opcode (NOTIFY, IQUERY): the question still has to match
+    for qop in (4, 1):
+        for entry in ("sync.udp", "async.udp", "sync.receive_udp", "async.receive_udp"):
+            for opts in ALL_OPTS:
+                tasks.append((udp_task, (entry, "v4", opts, "fast", 1, 0, qop)))
+    ctx.extra["query_opcodes"] = [0, 4, 1]
     tasks.append((send_udp_task, None))
     # ---- TCP
     P = {}
